@@ -1,0 +1,12 @@
+//go:build verif
+
+package currency
+
+// VerifRoots exposes the package's global definitions to the external
+// verification harness (read-only use: fingerprinting shared state).
+// Only compiled with the "verif" build tag.
+func VerifRoots() map[string]any {
+	return map[string]any{
+		"currency.definitions": definitions,
+	}
+}
